@@ -8,7 +8,10 @@ from checks import sched_common as S
 from checks import stop_common as ST
 
 ASSUMPTIONS = list(S.BASE_ASSUMPTIONS) + list(ST.ASSUMPTIONS)
-EXTRA_T1 = []
+# the pools a unit travels through belong to C01's anchors as well: the queue code and the access -> callback dispatch
+# (same list as C07; a slip in the list surgery loses or duplicates units)
+from checks import c07 as _c07
+EXTRA_T1 = list(_c07.T1_FUNCS)
 
 
 def run(res, tier, broken):
